@@ -92,7 +92,8 @@ func scenario(k int) {
 	if f.want == "consistent" && mode == "twin" {
 		mode = "torrent"
 	}
-	desc := fmt.Sprintf("%s flag=%s mode=%s", label, f.name, mode)
+	restart := mode == "torrent" && r.Intn(3) == 0
+	desc := fmt.Sprintf("%s flag=%s mode=%s restart=%v", label, f.name, mode, restart)
 	run.CaseStart(desc)
 	dir := filepath.Join(run.Work, label)
 	os.MkdirAll(dir, 0o755)
@@ -170,7 +171,11 @@ func scenario(k int) {
 
 	prov := memstore.NewProvider(filepath.Join(dir, "m"))
 	dp := 31000 + int(dhtPort.Add(1)*13%20000) + os.Getpid()%1000
-	s, cfg, err := sess.New(sess.Opts{Dir: dir, Storage: prov, Mutate: func(c *torrent.Config) {
+	var first *torrent.Config
+	mutate := func(c *torrent.Config) {
+		if first != nil {
+			c.Host, c.PortBegin, c.PortEnd = first.Host, first.PortBegin, first.PortEnd
+		}
 		c.DHTEnabled = true
 		c.DHTHost = c.Host
 		c.DHTPort = uint16(dp)
@@ -182,7 +187,9 @@ func scenario(k int) {
 		c.PrivatePeerIDPrefix = privPrefix
 		c.PrivateExtensionHandshakeClientVersion = privVer
 		c.TrackerHTTPPrivateUserAgent = privUA
-	}})
+	}
+	s, cfg, err := sess.New(sess.Opts{Dir: dir, Storage: prov, Mutate: mutate})
+	first = &cfg
 	if err != nil {
 		run.Inconclusive(desc + ": session: " + err.Error())
 		run.CaseEnd(desc)
@@ -200,7 +207,29 @@ func scenario(k int) {
 	magnet := fmt.Sprintf("magnet:?xt=urn:btih:%x&tr=%s", ih, trURL)
 	switch mode {
 	case "torrent":
-		t, err = s.AddTorrent(bytes.NewReader(tb), nil)
+		if restart {
+			// added stopped, session restarted, started afterwards: everything below is observed on the reloaded torrent
+			t, err = s.AddTorrent(bytes.NewReader(tb), &torrent.AddTorrentOptions{Stopped: true})
+			if err == nil {
+				id := t.ID()
+				s.Close()
+				s, cfg, err = sess.New(sess.Opts{Dir: dir, Storage: prov, Mutate: mutate})
+				if err != nil {
+					closed = true
+					run.Inconclusive(desc + ": reopen: " + err.Error())
+					run.CaseEnd(desc)
+					return
+				}
+				if t = s.GetTorrent(id); t == nil {
+					run.Inconclusive(desc + ": torrent missing after restart")
+					run.CaseEnd(desc)
+					return
+				}
+				t.Start()
+			}
+		} else {
+			t, err = s.AddTorrent(bytes.NewReader(tb), nil)
+		}
 	case "magnet":
 		t, err = s.AddURI(magnet, nil)
 	case "twin":
@@ -367,7 +396,7 @@ func scenario(k int) {
 			s2.Close()
 		}
 	}
-	run.Distinct(fmt.Sprintf("%s|%s|%v|%d|%d|%d|%d", f.name, mode, reportedPrivate, min(len(dhtQ), 1), min(pexSent, 1), min(int(pexOnly.n.Load()), 1), min(int(dhtOnly.n.Load()), 1)))
+	run.Distinct(fmt.Sprintf("%s|%s|%v|%v|%d|%d|%d|%d", f.name, mode, restart, reportedPrivate, min(len(dhtQ), 1), min(pexSent, 1), min(int(pexOnly.n.Load()), 1), min(int(dhtOnly.n.Load()), 1)))
 	if k%10 == 1 {
 		run.Sample(map[string]any{"case": desc, "stats_private": reportedPrivate, "dht_queries_for_hash": len(dhtQ), "pex_sent": pexSent, "pex_only_dials": pexOnly.n.Load(), "dht_only_dials": dhtOnly.n.Load(), "handshakes": len(hs), "announces": len(ann), "status": st.Status.String(), "dht_query_types": qtypes(node.Queries())})
 	}
